@@ -88,10 +88,26 @@ theorem tame_rename (m : List (ObjId × ObjId)) : Tame (renameAct m) := by
   · exact h.2
   · split at h <;> cases h
 theorem tame_del (id : ObjId) : Tame (delAct id) := by
-  refine ⟨fun d c => ⟨d, rfl, fun h => ⟨h, fun _ e => e⟩⟩, fun _ => rfl, ?_⟩
-  intro o d c h
-  cases o <;> simp [delAct, delFn] at h ⊢
-  exact h.2
+  refine ⟨?_, fun _ => rfl, ?_⟩
+  · intro d c
+    refine ⟨stripDict id d, rfl, ?_⟩
+    intro hn
+    refine ⟨nodup_removeKeys hn _, ?_⟩
+    intro i hi
+    have hq : LENGTHE ∉ (d.filter (fun kv => isRefTo id kv.2)).map (·.1) := by
+      intro hm
+      obtain ⟨e, he, hek⟩ := List.mem_map.mp hm
+      have hmem := List.mem_filter.mp he
+      have : Dict.get d LENGTHE = some e.2 := DictL.get_some_of_mem hn (by rw [← hek]; exact hmem.1)
+      rw [hi] at this
+      have e2 : e.2 = .int i := (Option.some.inj this).symm
+      rw [e2] at hmem
+      simp [isRefTo] at hmem
+    unfold stripDict
+    rw [(get_removeKeys hn _ LENGTHE hq).1]; exact hi
+  · intro o d c h
+    cases o <;> simp [delAct, delFn] at h ⊢
+    exact h.2
 
 theorem lenInv_traverse (a : Action) (ht : Tame a) (tr : Dict) (os : Objects)
     (h : ∀ k o, os.get k = some o → LenOK o) : ∀ k o, (traverse a tr os).2.1.get k = some o → LenOK o := by
